@@ -8,6 +8,7 @@ import (
 
 	casbin "github.com/casbin/casbin/v2"
 	"github.com/casbin/casbin/v2/model"
+	"github.com/casbin/casbin/v2/persist"
 	fileadapter "github.com/casbin/casbin/v2/persist/file-adapter"
 	stringadapter "github.com/casbin/casbin/v2/persist/string-adapter"
 )
@@ -166,6 +167,7 @@ func init() {
 			c10History(c, fmt.Sprintf("c10.h%d", h), conf, autosave, 8+c.Rng.Intn(23), opts)
 		}
 		c10Text(c)
+		c10FilteredViews(c)
 		c10Probes(c)
 	})
 }
@@ -300,6 +302,107 @@ m = g(r.sub, p.sub) && r.obj == p.obj && r.act == p.act
 			}
 		}
 		c.Count("text-roundtrip")
+	}
+}
+
+// A store that can also load filtered views (persist.FilteredAdapter) AND implements the auto-save
+// calls, like the database adapters.  While a filtered view is loaded the enforcer refuses
+// SavePolicy (C18), but every single management call still has to reach the store: what is
+// persisted is what is enforced, for the rules the view contains.
+type c10FilteredStore struct {
+	*recAdapter
+	filtered bool
+}
+
+func (a *c10FilteredStore) IsFiltered() bool { return a.filtered }
+func (a *c10FilteredStore) LoadPolicy(m model.Model) error {
+	a.filtered = false
+	return a.recAdapter.LoadPolicy(m)
+}
+func (a *c10FilteredStore) LoadFilteredPolicy(m model.Model, filter interface{}) error {
+	sub, _ := filter.(string)
+	a.filtered = true
+	for _, x := range a.Content {
+		if len(x.Rule) > 0 && x.Rule[0] == sub {
+			if err := persist.LoadPolicyArray(append([]string{x.Pt}, x.Rule...), m); err != nil {
+				return err
+			}
+		}
+	}
+	return nil
+}
+
+func c10FilteredViews(c *Ctx) {
+	n := 40
+	if c.Thorough() {
+		n = 600
+	}
+	for i := 0; i < n; i++ {
+		id := fmt.Sprintf("c10.filtered.%d", i)
+		st := &c10FilteredStore{recAdapter: newRecAdapter()}
+		st.Content = []prule{{"p", []string{"alice", "data1", "read"}}, {"p", []string{"bob", "data2", "write"}}, {"p", []string{"alice", "data2", "read"}},
+			{"g", []string{"alice", "admin"}}, {"g", []string{"bob", "admin"}}, {"p", []string{"admin", "data1", "write"}}}
+		mm, _ := model.NewModelFromString(c11Conf.Text)
+		e, err := casbin.NewEnforcer(mm)
+		if err != nil {
+			panic(err)
+		}
+		e.SetAdapter(st)
+		if err := e.LoadFilteredPolicy("alice"); err != nil {
+			c.Direct(id, "LoadFilteredPolicy failed on the filtered store", "")
+			continue
+		}
+		var trace []string
+		for k := 0; k < 1+c.Rng.Intn(5); k++ {
+			var pt string
+			var rule []string
+			add := c.Rng.Intn(2) == 0
+			if c.Rng.Intn(3) == 0 {
+				pt, rule = "g", []string{"alice", []string{"admin", "root", "user"}[c.Rng.Intn(3)]}
+			} else {
+				pt, rule = "p", []string{"alice", []string{"data1", "data2", "data3"}[c.Rng.Intn(3)], []string{"read", "write"}[c.Rng.Intn(2)]}
+			}
+			var ok bool
+			var err error
+			switch {
+			case add && pt == "g":
+				ok, err = e.AddGroupingPolicy(toIface(rule)...)
+			case add:
+				ok, err = e.AddPolicy(toIface(rule)...)
+			case pt == "g":
+				ok, err = e.RemoveGroupingPolicy(toIface(rule)...)
+			default:
+				ok, err = e.RemovePolicy(toIface(rule)...)
+			}
+			trace = append(trace, fmt.Sprintf("%v %s %v -> %v", add, pt, rule, ok))
+			if err != nil {
+				c.Direct(id, "a management call on a filtered view failed", strings.Join(trace, "; "))
+				break
+			}
+			// listed in memory <=> stored, for the rule just named
+			var listed bool
+			if pt == "g" {
+				listed, _ = e.HasGroupingPolicy(toIface(rule)...)
+			} else {
+				listed, _ = e.HasPolicy(toIface(rule)...)
+			}
+			if listed != st.has(pt, rule) {
+				c.Direct(id, "auto-save is on and a filtered view is loaded: the rule is listed in memory but not in the store (or the reverse)",
+					fmt.Sprintf("trace=%s listed=%v stored=%v", strings.Join(trace, "; "), listed, st.has(pt, rule)))
+				break
+			}
+		}
+		// a second enforcer loading the same view decides alike
+		m2, _ := model.NewModelFromString(c11Conf.Text)
+		e2, _ := casbin.NewEnforcer(m2)
+		e2.SetAdapter(st)
+		if err := e2.LoadFilteredPolicy("alice"); err == nil {
+			reqs := c10Requests(c11Conf)
+			if a, b := c10Decisions(e, reqs), c10Decisions(e2, reqs); a != b {
+				c.Direct(id, "an enforcer freshly loaded with the same filtered view decides differently", fmt.Sprintf("trace=%s origin=%s fresh=%s", strings.Join(trace, "; "), a, b))
+			}
+		}
+		c.Count("filtered-view-history")
 	}
 }
 
